@@ -78,6 +78,7 @@ def _tag(obj):
 # semantic fingerprint of expressions
 _ENVS = None
 _fp_cache = {}
+_fp_vars = {}      # fingerprint -> free symbols (oracle table for the model's parameter_names)
 
 
 def _envs():
@@ -119,6 +120,7 @@ def _fingerprint(sym):
                 vals.append('err:' + type(e).__name__)
         h = hashlib.sha1(repr(([str(s) for s in syms], vals)).encode()).hexdigest()[:10]
         r = {'s': 'E' + h}
+        _fp_vars['E' + h] = [str(s) for s in syms]
     _fp_cache[key] = r
     return r
 
@@ -495,6 +497,16 @@ def _run_store(case, path):
         except Exception as e:   # noqa
             res.append(_sres(e))
     be = _read_backend(_reopen(case['backend'], path, backend))
+    import re
+    vt = {f: _fp_vars[f] for f in sorted(set(re.findall(r'"(E[0-9a-f]{10})"', json.dumps(model_roots))))}
+    ifaces = []
+    for k, r in enumerate(roots):
+        def prop(attr, conv):
+            o = _outcome(lambda: sorted(conv(x) for x in getattr(r, attr)))
+            return o[1] if o[0] == 'ok' else None
+        chs = _outcome(lambda: sorted((_chan(c) for c in r.defined_channels), key=_chan_sort_key))
+        ifaces.append([k, {'params': prop('parameter_names', str), 'mnames': prop('measurement_names', str),
+                           'chans': chs[1] if chs[0] == 'ok' else None}])
     loads = []
     stats = {}
     done = set()
@@ -510,7 +522,7 @@ def _run_store(case, path):
         b = compare_behaviour(roots[ri], o[1], stats)
         b['ok'] = True
         loads.append([ri, b])
-    return {'roots': model_roots, 'res': res, 'be': be, 'loads': loads, 'stats': stats}
+    return {'roots': model_roots, 'res': res, 'be': be, 'loads': loads, 'stats': stats, 'vt': vt, 'iface': ifaces}
 
 
 def _run_doc(case, path):
@@ -674,11 +686,17 @@ def to_coq(case, obs):
             else:
                 loads.append('(%d%%nat, mkLobs true %s %s %s %s %s)' % (pos, gbool(b['eq']), gbool(b['iface']), gbool(b['dur']),
                                                                       gbool(b['prog']), gbool(b['share'])))
-        return '(CStore %s %s %s %s %s)' % (
+        gstrs = lambda l: glist(gstr, l)
+        g_iface = lambda ki: '(%d%%nat, (%s, %s, %s))' % (
+            ki[0], gopt(gstrs, ki[1]['params']), gopt(gstrs, ki[1]['mnames']),
+            gopt(lambda l: glist(g_chan, l), ki[1]['chans']))
+        return '(CStore %s %s %s %s %s %s %s)' % (
             glist(g_pt, obs['roots']),
             glist(lambda op: '(%d%%nat, %d%%nat)' % (op[0], op[1]), case['ops']),
             glist(lambda r: SRES.get(r, 'SErrOther'), obs['res']),
-            g_backend(obs['be']), '[' + '; '.join(loads) + ']')
+            g_backend(obs['be']), '[' + '; '.join(loads) + ']',
+            glist(lambda kv: '(%s, %s)' % (gstr(kv[0]), gstrs(kv[1])), sorted(obs['vt'].items())),
+            glist(g_iface, obs['iface']))
     if case['kind'] == 'pinned':
         return '(CPinned %s %s %s %s %s)' % (g_backend(obs['be']), gstr(case['load']), g_pt(case['expect']),
                                             gopt(g_pt, obs.get('loaded')), gbool(obs.get('iface_ok', False)))
